@@ -1,9 +1,148 @@
 import Driver.Util
+import Lattigo.Model.Codec
 
+/-
+  C08 line protocol.
+
+  Value trees (no spaces): `_` unit · decimal number · `x<hex>` opaque bytes (`x` = empty) ·
+  `(a,b)` pair (`(a,b,c)` = `(a,(b,c))`) · `[a,b,…]` list (`[]` empty) · `~` nil optional ·
+  `?v` present optional.
+
+  ops (first token after `C08`):
+    enc  <ty> <val>                → hex of the model encoding
+    size <ty> <val>                → announced size (`BinarySize`)
+    wt   <ty> <val>                → 1/0 well-typed
+    dec  <ty> <hex>                → `ok <consumed> <val>` | `err`
+    decc <ty> <sizes> <hex>        → same through the chunked reader (chunk sizes cycle)
+    many <ty> <k> <hex>            → `ok <consumed> [v1,…,vk]` | `err`  (back-to-back)
+    into <ty> <recvval> <hex>      → `ok <consumed> <val>` | `err`  (Go `ReadFrom` into a
+                                      receiver holding `recvval`; the receiver-leak model)
+-/
 namespace Driver.C08
-open Driver
+open Driver Lattigo.Codec
 
-/-- stub: replaced by the property's real handler -/
-def handle (_toks : List String) : String := badOp
+/-! value tree parser / printer -/
+
+partial def parseVal : List Char → Option (Val × List Char)
+  | '_' :: r => some (.unit, r)
+  | '~' :: r => some (.none, r)
+  | '?' :: r => do
+      let (v, r') ← parseVal r
+      some (.some v, r')
+  | 'x' :: r =>
+      let hexs := r.takeWhile (fun c => hexDigit? c |>.isSome)
+      let rest := r.dropWhile (fun c => hexDigit? c |>.isSome)
+      match parseHex? (if hexs.isEmpty then "-" else String.ofList hexs) with
+      | some bs => some (.bytes bs, rest)
+      | none => none
+  | '(' :: r => do
+      let (a, r1) ← parseVal r
+      parseTuple a r1
+  | '[' :: ']' :: r => some (.list [], r)
+  | '[' :: r => do
+      let (a, r1) ← parseVal r
+      parseList [a] r1
+  | cs =>
+      let ds := cs.takeWhile Char.isDigit
+      if ds.isEmpty then none
+      else some (.num (String.ofList ds).toNat!, cs.dropWhile Char.isDigit)
+where
+  parseTuple (a : Val) : List Char → Option (Val × List Char)
+    | ')' :: r => some (a, r)
+    | ',' :: r => do
+        let (b, r1) ← parseVal r
+        let (t, r2) ← parseTuple b r1
+        some (.pair a t, r2)
+    | _ => none
+  parseList (acc : List Val) : List Char → Option (Val × List Char)
+    | ']' :: r => some (.list acc.reverse, r)
+    | ',' :: r => do
+        let (b, r1) ← parseVal r
+        parseList (b :: acc) r1
+    | _ => none
+
+def parseVal? (s : String) : Option Val :=
+  match parseVal s.toList with
+  | some (v, []) => some v
+  | _ => none
+
+partial def showVal : Val → String
+  | .unit => "_"
+  | .num n => toString n
+  | .bytes bs => "x" ++ (if bs.isEmpty then "" else showHex bs)
+  | .pair a b => "(" ++ showVal a ++ "," ++ showTail b
+  | .list vs => "[" ++ ",".intercalate (vs.map showVal) ++ "]"
+  | .none => "~"
+  | .some v => "?" ++ showVal v
+where
+  /-- pairs print right-nested without inner parentheses: `(a,b,c)` -/
+  showTail : Val → String
+    | .pair a b => showVal a ++ "," ++ showTail b
+    | v => showVal v ++ ")"
+
+/-- split a flat list into chunks whose sizes cycle through `sizes` (size 0 = empty chunk). -/
+partial def chunk (sizes : List Nat) (bs : List Nat) : List (List Nat) :=
+  let rec go (szs : List Nat) (bs : List Nat) (acc : List (List Nat)) (idle : Nat) : List (List Nat) :=
+    if bs.isEmpty then acc.reverse
+    else match szs with
+      | [] => if idle > sizes.length then (bs :: acc).reverse else go sizes bs acc (idle + 1)
+      | k :: rest => go rest (bs.drop k) (bs.take k :: acc) (if k = 0 then idle + 1 else 0)
+  if sizes.isEmpty then [bs] else go sizes bs [] 0
+
+/-- Go maps are rendered in ascending key order: sort the entries of every map node. -/
+def insertByKey (e : Val) : List Val → List Val
+  | [] => [e]
+  | x :: xs => if (keyOf e).getD 0 < (keyOf x).getD 0 then e :: x :: xs else x :: insertByKey e xs
+
+partial def canon : Fmt → Val → Val
+  | .framed _ f _, v => canon f v
+  | .pair a b, .pair x y => .pair (canon a x) (canon b y)
+  | .vec m _ f, .list vs =>
+    let vs' := vs.map (canon f)
+    .list (if m then vs'.foldr insertByKey [] else vs')
+  | .opt _ _ f, .some x => .some (canon f x)
+  | .tailIf a _ _, .pair x y => .pair (canon a x) y
+  | _, v => v
+
+def showDec (total : Nat) : Option (Val × List Nat) → String
+  | some (v, rest) => s!"ok {total - rest.length} {showVal v}"
+  | none => "err"
+
+def handle (toks : List String) : String :=
+  match toks with
+  | ["enc", ty, v] =>
+    match fmtOf ty, parseVal? v with
+    | some f, some v => showHex (enc f v)
+    | _, _ => badOp
+  | ["size", ty, v] =>
+    match fmtOf ty, parseVal? v with
+    | some f, some v => toString (size f v)
+    | _, _ => badOp
+  | ["wt", ty, v] =>
+    match fmtOf ty, parseVal? v with
+    | some f, some v => if wtb f v then "1" else "0"
+    | _, _ => badOp
+  | ["dec", ty, h] =>
+    match fmtOf ty, parseHex? h with
+    | some f, some bs => showDec bs.length (dec f bs)
+    | _, _ => badOp
+  | ["decc", ty, sizes, h] =>
+    match fmtOf ty, parseVec? sizes, parseHex? h with
+    | some f, some szs, some bs =>
+      showDec bs.length ((decC f (chunk szs bs)).map fun p => (p.1, p.2.flatten))
+    | _, _, _ => badOp
+  | ["many", ty, k, h] =>
+    match fmtOf ty, parseNat? k, parseHex? h with
+    | some f, some k, some bs =>
+      match decMany f k bs with
+      | some (vs, rest) => s!"ok {bs.length - rest.length} {showVal (.list vs)}"
+      | none => "err"
+    | _, _, _ => badOp
+  | ["into", ty, r, h] =>
+    match fmtOf ty, parseVal? r, parseHex? h with
+    | some f, some r, some bs =>
+      showDec bs.length ((decInto f r bs).map fun p => (canon f p.1, p.2))
+    | _, _, _ => badOp
+  | _ => badOp
 
 end Driver.C08
